@@ -39,8 +39,12 @@ for seed in sys.argv[1:]:
     sh("git reset -q --hard && git clean -fdq -e target -e Cargo.lock && git checkout -q --detach main", cwd=WT)
     if not os.path.exists(os.path.join(WT, "Cargo.lock")):
         shutil.copy("/repo/Cargo.lock", os.path.join(WT, "Cargo.lock"))
-    rc, o, e = sh("python3 %s/tools/confirm_seeded.py %s %s" % (ROOT, seed, WT))
-    confirmed = rc == 0
+    cj = os.path.join(seed, "confirm.json")
+    if os.path.exists(cj) and json.load(open(cj)).get("confirmed"):
+        confirmed = True      # already confirmed by an earlier run
+    else:
+        rc, o, e = sh("python3 %s/tools/confirm_seeded.py %s %s" % (ROOT, seed, WT))
+        confirmed = rc == 0
     check = {"ran": False}
     if confirmed and os.path.exists(os.path.join(ROOT, "vlib", "props", prop.lower() + ".py")):
         sh("git reset -q --hard && git clean -fdq -e target -e Cargo.lock", cwd=WT)
